@@ -24,6 +24,8 @@ Scn(f, ls, o, io, pr) == [fs0 |-> f, list |-> ls, opts |-> o, ioerr |-> io, prot
 (* an end-to-end scenario: the sender lists the source tree under the rules *)
 E2E(src, dst, o, rules) == [fs0 |-> dst, list |-> SenderList(src, o, rules), opts |-> o, ioerr |-> 0, prot |-> Protected(rules), src |-> src, rules |-> rules]
 OX(r, l, p, t, dv, sp, c, I, n, del) == [r |-> r, l |-> l, p |-> p, t |-> t, dv |-> dv, sp |-> sp, c |-> c, I |-> I, n |-> n, del |-> del]
+(* ... with -o / -g (they add fields to the wire format; ownership itself is judged by C11) *)
+OG(o, og, gg) == [x \in DOMAIN o \cup {"o", "g"} |-> IF x = "o" THEN og ELSE IF x = "g" THEN gg ELSE o[x]]
 
 (* the entries of a tree, as a (sorted) file list *)
 ListOf(tree) == LET idxs == {i \in 1..Len(Universe) : Exists(tree, Universe[i])}
@@ -98,21 +100,20 @@ C09Scn ==
       src \in C09Trees(FALSE, FALSE), dst \in C09Trees(TRUE, TRUE), m \in C09Modes }
 
 (* =================================================================== C11 *)
-(* Universe = <<".", "d", "d/f", "f", "l", "ro", "ro/f">>: attribute classes   *)
+(* Universe = <<".", "d", "d/f", "dev", "f", "k", "l", "ro", "ro/f">>: attribute classes *)
 (* x all subsets of {p, t, l}; prior destination absent / present           *)
 C11Perms == {0, 256, 365, 420, 511, 128}            \* 0000 0400 0555 0644 0777 0200
 C11Src(fp, dp, mt) ==
-  With(With(With(With(With(With(EmptyFs, "d", Dir(dp)), "d/f", Reg(1, 20, mt, 0, fp)),
-       "f", Reg(2, 30, mt, 0, fp)), "l", Lnk("d/f")), "ro", Dir(365)), "ro/f", Reg(3, 9, mt, 0, 292))
+  With(With(With(With(With(With(With(With(EmptyFs, "d", Dir(dp)), "d/f", Reg(1, 20, mt, 0, fp)),
+       "dev", Spc("chr", fp)), "f", Reg(2, 30, mt, 0, fp)), "k", Spc("fifo", fp)), "l", Lnk("d/f")), "ro", Dir(365)), "ro/f", Reg(3, 9, mt, 0, 292))
 C11Prior(kind) ==
   IF kind = "absent" THEN EmptyFs
   ELSE With(With(With(With(With(EmptyFs, "d", Dir(448)), "d/f", Reg(1, 20, 777, 0, 384)),   \* same content, other mtime/perm
        "f", Reg(8, 30, 777, 0, 416)), "l", Lnk("zzz")), "ro", Dir(493))
 C11Scn ==
-  { Scn(C11Prior(k), ListOf(C11Src(fp, dp, mt)), O(TRUE, l, p, t, FALSE, FALSE, FALSE, FALSE, FALSE), 0, {}) :
-      k \in {"absent", "present"}, fp \in C11Perms, dp \in {493, 365, 448, 320}, mt \in {1000, 1, 2000000000},
-      l \in BOOLEAN, p \in BOOLEAN, t \in BOOLEAN }
-
+  { Scn(C11Prior(k), ListOf(C11Src(fp, dp, mt)), OX(TRUE, l, p, t, TRUE, TRUE, c, FALSE, FALSE, FALSE), 0, {}) :
+      k \in {"absent", "present"}, fp \in C11Perms, dp \in {493, 365, 448, 320}, mt \in {1000, 1, 2000000000, 0 - 2, 0 - 2000000000},
+      l \in BOOLEAN, p \in BOOLEAN, t \in BOOLEAN, c \in BOOLEAN }
 
 (* =================================================================== C13 *)
 (* Universe = <<".", "a", "b", "c", "d", "d/a", "d/b", "d/e", "d/e/a">>: the same *)
@@ -130,9 +131,9 @@ C13Scn == { E2E(C13Src, EmptyFs, OX(TRUE, FALSE, FALSE, TRUE, FALSE, FALSE, FALS
 C14Src == With(With(With(With(With(With(EmptyFs, "d", Dir(488)), "d/f", Reg(1, 20, 1000, 0, 416)), "dev", Spc("chr", 432)),
           "f", Reg(2, 30, 2000, 0, 384)), "k", Spc("fifo", 420)), "l", Lnk("d/f"))
 C14Dst == With(With(With(EmptyFs, "d", Dir(493)), "f", Reg(7, 30, 2000, 0, 420)), "z", Reg(8, 5, 500, 0, 420))
-C14Scn == { E2E(C14Src, C14Dst, OX(TRUE, l, p, t, dv, sp, c, I, n, del), rs) :
+C14Scn == { E2E(C14Src, C14Dst, OG(OX(TRUE, l, p, t, dv, sp, c, I, n, del), og, gg), rs) :
               l \in BOOLEAN, p \in BOOLEAN, t \in BOOLEAN, dv \in BOOLEAN, sp \in BOOLEAN, c \in BOOLEAN, I \in BOOLEAN, n \in BOOLEAN,
-              del \in BOOLEAN, rs \in {<<>>, <<[inc |-> FALSE, pat |-> "f"]>>} }
+              del \in BOOLEAN, og \in BOOLEAN, gg \in BOOLEAN, rs \in {<<>>, <<[inc |-> FALSE, pat |-> "f"]>>} }
 
 (* =================================================================== C01 *)
 (* Universe = <<".", "a", "b", "d", "d/a">>: every prior destination state of *)
@@ -167,7 +168,7 @@ ScnNext == SDeletePass \/ SGen \/ SRcv \/ SFinish \/ SStutter
 ScnSpec == ScnInit /\ [][ScnNext]_svars
 
 (* C13: the sender lists exactly the entries no exclude rule removes *)
-FilterExact == \A p \in Paths : (p \in ListedNames(list)) = (Exists(srcv, p) /\ ~Excluded(rulesv, p) /\ opts.r)
+FilterExact == Family \in {"c13", "c14", "c01"} => \A p \in Paths : (p \in ListedNames(list)) = (Exists(srcv, p) /\ ~Excluded(rulesv, p) /\ opts.r)
 
 (* ---- emission: one JSON line per initial state, with the outcome the spec predicts *)
 NodesOf(tree) == LET F[k \in 0..Len(Universe)] ==
